@@ -417,7 +417,7 @@ impl Check for C11 {
     }
 
     fn rule(&self) -> String {
-        "Per episode one compound datagram of 1-8 members (stacked packets from real builders / foreign encoder, or the real CompoundBuilder); around it: every truncation length, extensions by 1-3 bytes, by 4 zero bytes, by a small RR, by itself and by another compound (coalescing); for every tile: length field in {0, L+-1, L+-2, rest, rest+-1, 0xffff}, version in {0,1,3}, packet type := every other known type, padding bit with zero count, count := 31; plus 24 seeded double faults. Each delivery: Compound::parse vs. the reference tiler, then tape-driven reader histories (next() x items+0..5 extra, two interleaved iterators, re-parse and resume after partial iteration) vs. Packet::parse per reference tile. evaluations = deliveries. Non-trivial = a fault fired and the delivery is at least 4 bytes; distinct = distinct (accepted?, reference tile count, index of first failing tile, fault-kind sequence, length in words).".into()
+        "Per episode one compound datagram of 1-8 members (stacked packets from real builders / foreign encoder, or the real CompoundBuilder); around it: every truncation length, extensions by 1-3 bytes, by 4 zero bytes, by a small RR, by itself and by another compound (coalescing); for every tile: length field in {0, L+-1, L+-2, rest, rest+-1, 0xffff}, version in {0,1,3}, packet type := every other known type, padding bit with zero count, count := 31; plus 24 seeded double faults; and, in the first 4096 episodes of a run, an exhaustive sweep of the 16-bit length field of one tile (all 65536 values, tile alone / behind / in front of a small packet, real size = announced -4/-1/0/+1/+3/+4). Each delivery: Compound::parse vs. the reference tiler, then tape-driven reader histories (next() x items+0..5 extra, two interleaved iterators, re-parse and resume after partial iteration) vs. Packet::parse per reference tile. evaluations = deliveries. Non-trivial = a fault fired and the delivery is at least 4 bytes; distinct = distinct (accepted?, reference tile count, index of first failing tile, fault-kind sequence, length in words).".into()
     }
     fn assumptions(&self) -> Vec<String> {
         vec![
@@ -432,6 +432,6 @@ impl Check for C11 {
             .set("stub", J::Arr(vec!["channel + fault enumerator".into(), "reference tiler (oracle)".into(), "foreign peer RFC encoder (traffic)".into()]))
     }
     fn exhaustive_dimensions(&self) -> Vec<String> {
-        vec!["all truncation lengths per base compound".into(), "per tile: the listed length-field, version and packet-type rewrites".into()]
+        vec!["all truncation lengths per base compound".into(), "per tile: the listed length-field, version and packet-type rewrites".into(), "all 65536 values of a tile's length field, once per run".into()]
     }
 }
